@@ -3,6 +3,8 @@ mod c15;
 mod coqfmt;
 mod reflect;
 mod rng;
+mod sim;
+mod simcheck;
 
 use std::path::PathBuf;
 
@@ -21,7 +23,8 @@ fn main() {
         "reflect" => reflect::run(&out),
         "c13" => c13::run(&out, seed, thorough),
         "c15" => c15::run(&out, seed, thorough),
-        _ => { eprintln!("usage: hx <reflect|c13|...> --out DIR [--seed N] [--tier quick|thorough]"); std::process::exit(2); }
+        "simcheck" | "simcheck-worker" | "simprobe" | "simreplay" => simcheck::main(&cmd, &args, &out, seed, thorough),
+        _ => { eprintln!("usage: hx <reflect|c13|simcheck|simprobe|simreplay|...> --out DIR [--seed N] [--tier quick|thorough]"); std::process::exit(2); }
     };
     if let Err(e) = r { eprintln!("hx {}: error: {}", cmd, e); std::process::exit(3); }
 }
